@@ -9,7 +9,7 @@ META = {
     "category": "proof",
     "text": "Kernel-checked theorems over every reachable state of the reloader protocol model (any number of acquiring, requesting and fast-reload-switching threads, any interleaving of the atomic steps, creator callbacks that issue requests / switch fast reload / fail, freshness callback): a request that returned before an acquire locked is served by the environment that acquire hands out (creator started or templates cleared after the flag was set); no step replaces, rebuilds or clears the environment while a guard is held; every creator call or clear is caused by its own observation and the flag is observed true at most once per request; a request arriving while the creator runs keeps the flag up and the next acquire rebuilds. The model is tied to /repo by replaying model-enumerated schedules (all interleavings at the hook points for the small boxes, eager-return-reduced or sampled for 3x3) on the real code and comparing the whole observation (arrival point of every step, generation and loader-call number seen through every guard, creator calls with their step), plus the property itself evaluated on the observed history.",
     "design_ref": "DESIGN.md §3 C20",
-    "level_note": "Trusted: Lean kernel; hand transcription of acquire_env/request_reload/should_reload/prepare_and_mark_reload/keep_reload_pending/set_fast_reload/set_callback into MJ/Model/Reloader.lean, tied three ways: (a) the per-function sequence of shared accesses (locks, flag/fast/callback reads and writes, creator, clear, hand-out) is re-extracted from lib.rs on every run and proved equal to the sequence the model's steps assume (MJ.C20.accesses_as_modelled; regex extractor lib/tables/c20.py is trusted), so a new access anywhere breaks the tie even where no hook sits; (b) schedule replay at hook granularity (every notifier-lock acquisition of acquire_env except the re-arm after a failed creator is preceded by a hook); (c) the property evaluated on the observed history. The fs-watcher closure is proved to perform request_reload's critical sections (fs_callback_is_request); its event filter (the matches! pattern) is re-extracted on every run, evaluated on every concrete EventKind of the vendored notify-types crate and proved to accept every kind that denotes a change of file content or of the set of files, for every RenameMode (every_namespace_change_event_requests, all_rename_modes_request), and to reject access/metadata events; in both tiers a scratch crate with the real watch-fs feature drives real file changes (write, create, delete, rename inside / out of / into the tree, directory rename, directory moved out, atomic save, move of the watched root; touch reported only) x {full, fast, persistent} and requires a notification and an environment that reflects the disk at the next acquire (skipped, and said so, if the sandbox delivers no inotify events). The watcher's LIFETIME is modelled (watching / persistent / registered; prepare drops it per dropWatcher, creator or an outside thread re-registers): the drop condition's truth table is re-extracted and proved equal to the model's (drop_cond_as_modelled, watcher_kept_if_fast_or_persistent), watcher_alive_whenever_needed holds in every reachable state, and the real test runs SEQUENCES (request_reload + 3 successive file changes, an acquire after each) for {full, fast, persistent, fast+persistent} x {registered in the creator, once from outside}. Known finding (reproduced on the real code through the AfterReset hook, printed as KNOWN-FINDING): set_fast_reload(true) from another thread between the drop decision and the create-or-clear decision leaves the paths unwatched. A PANICKING creator is a third creator outcome in model, replay and oracle: the panic propagates out of acquire_env without re-arming the flag and poisons the cached_env mutex, every later acquire_env panics on lock().unwrap() (theorem panic_never_serves_stale: no guard is handed out after a creator panic; the example next to it shows that a lock() that recovers from the poison would hand out the stale environment; the table item records how every lock() result is consumed). That the reloader is unusable after a creator panic is outside C20's statement and only recorded (coverage.info). Not covered: in full-reload mode without persistent_watch the fs watcher is dropped before the creator runs and only exists again once the creator calls watch_path, so file changes in that window produce no notification at all (the creator must register before it reads).",
+    "level_note": "Trusted: Lean kernel; hand transcription of acquire_env/request_reload/should_reload/prepare_and_mark_reload/keep_reload_pending/set_fast_reload/set_callback into MJ/Model/Reloader.lean, tied three ways: (a) the per-function sequence of shared accesses (locks, flag/fast/callback reads and writes, creator, clear, hand-out) is re-extracted from lib.rs on every run and proved equal to the sequence the model's steps assume (MJ.C20.accesses_as_modelled; regex extractor lib/tables/c20.py is trusted), so a new access anywhere breaks the tie even where no hook sits; (b) schedule replay at hook granularity (every notifier-lock acquisition of acquire_env except the re-arm after a failed creator is preceded by a hook); (c) the property evaluated on the observed history. The fs-watcher closure is proved to perform request_reload's critical sections (fs_callback_is_request); its event filter (the matches! pattern) is re-extracted on every run, evaluated on every concrete EventKind of the vendored notify-types crate and proved to accept every kind that denotes a change of file content or of the set of files, for every RenameMode (every_namespace_change_event_requests, all_rename_modes_request), and to reject access/metadata events; in both tiers a scratch crate with the real watch-fs feature drives real file changes (write, create, delete, rename inside / out of / into the tree, directory rename, directory moved out, atomic save, move of the watched root; touch reported only) x {full, fast, persistent} and requires a notification and an environment that reflects the disk at the next acquire (skipped, and said so, if the sandbox delivers no inotify events). The watcher's LIFETIME is modelled (watching / persistent / registered; prepare drops it per dropWatcher, creator or an outside thread re-registers): the drop condition's truth table is re-extracted and proved equal to the model's (drop_cond_as_modelled, watcher_kept_if_fast_or_persistent), watcher_alive_whenever_needed holds in every reachable state, and the real test runs SEQUENCES (request_reload + 3 successive file changes, an acquire after each) for {full, fast, persistent, fast+persistent} x {registered in the creator, once from outside}. A genuine race found this way (set_fast_reload(true) from another thread between the drop decision and the create-or-clear decision left the paths unwatched) was repaired in fix 5725511 (the decision is taken once); the model carries the decided value (fastSeen), no_clear_after_drop / dropped_then_creator_runs prove that an acquire that threw the watcher away always runs the creator under every interleaving, and the real scenario is replayed through the AfterReset hook on every run. A PANICKING creator is a third creator outcome in model, replay and oracle: the panic propagates out of acquire_env without re-arming the flag and poisons the cached_env mutex, every later acquire_env panics on lock().unwrap() (theorem panic_never_serves_stale: no guard is handed out after a creator panic; the example next to it shows that a lock() that recovers from the poison would hand out the stale environment; the table item records how every lock() result is consumed). That the reloader is unusable after a creator panic is outside C20's statement and only recorded (coverage.info). Not covered: in full-reload mode without persistent_watch the fs watcher is dropped before the creator runs and only exists again once the creator calls watch_path, so file changes in that window produce no notification at all (the creator must register before it reads).",
 }
 
 NPROC = 8
